@@ -222,8 +222,21 @@ where
   /// }
   /// ```
   pub fn take_next_sample(&mut self) -> ReadResult<Option<DataSample<D>>> {
-    let mut ds = self.take(1, ReadCondition::not_read())?;
-    Ok(ds.pop())
+    // A change without a value (dispose) has no representation in a no_key topic.
+    // Skip it and take the next one, instead of reporting that nothing is available.
+    loop {
+      let mut keyed_samples = self
+        .keyed_datareader
+        .take(1, ReadCondition::not_read())?;
+      match keyed_samples.pop() {
+        None => return Ok(None),
+        Some(keyed_sample) => {
+          if let Some(sample) = DataSample::<D>::from_with_key(keyed_sample) {
+            return Ok(Some(sample));
+          }
+        }
+      }
+    }
   }
 
   // Iterator interface
